@@ -206,6 +206,17 @@ func main() {
 		if !c.libAccepts {
 			return
 		}
+		if i%7 == 0 {
+			// history: the same schema object first meets a Spec it rightly refuses (a hook timeout of
+			// -1 is outside the statement); its verdicts afterwards must not depend on that
+			tm := -1
+			refused := &specs.Spec{Version: "0.6.0", Kind: "vendor.com/refused", Devices: []specs.Device{{Name: "d", ContainerEdits: specs.ContainerEdits{
+				Hooks: []*specs.Hook{{HookName: "prestart", Path: "/h", Timeout: &tm}}}}}}
+			if builtin.Validate(refused) == nil || builtin.ValidateType(refused) == nil {
+				fail(*c, "schema-accepts-negative-timeout", "the builtin schema accepts a hook timeout of -1", nil)
+			}
+			_ = builtin.ValidateData([]byte(`{"cdiVersion":"0.6.0","kind":"vendor.com/refused","devices":[]}`))
+		}
 		if err := builtin.Validate(spec); err != nil {
 			fail(*c, "schema-rejects-in-memory-spec", "library-valid Spec rejected by the builtin schema: "+firstLine(err.Error()), err.Error())
 		}
